@@ -61,15 +61,16 @@ Definition msg_lines (pkg : bytes) (file : N) (m : omsg) : list line :=
 Definition enum_lines (pkg name : bytes) (vs : list (bytes * N)) : list line :=
   (4, [pkg ++ [46] ++ name], []) :: map (fun v => (5, [fst v], [snd v])) vs.
 
-(* 6: service [full name; annotation strings] [file; annotation kind; role]
+(* 6: service [full name; annotation strings; audience/default auth (always none: acceptCommands
+      replaces the options a command declares)] [file; annotation kind; role]
    7: method [name; input; output; path] [verb; state_query flag] *)
 Definition svc_lines (pkg : bytes) (file : N) (s : osvc) : list line :=
   let fp := file_pkg pkg file in
   let abs (n : bytes) := match n with 46 :: r => r | _ => fp ++ [46] ++ n end in
   (match sv_ann s with
-   | SQuery en => (6, [fp ++ [46] ++ sv_name s; en; []], [file; 1; 0])
-   | SCommand en => (6, [fp ++ [46] ++ sv_name s; en; []], [file; 2; 0])
-   | STopic tn role en => (6, [fp ++ [46] ++ sv_name s; tn; en], [file; 3; role])
+   | SQuery en => (6, [fp ++ [46] ++ sv_name s; en; []; []], [file; 1; 0])
+   | SCommand en => (6, [fp ++ [46] ++ sv_name s; en; []; []], [file; 2; 0])
+   | STopic tn role en => (6, [fp ++ [46] ++ sv_name s; tn; en; []], [file; 3; role])
    end)
   :: map (fun m => (7, [mt_name m; abs (mt_in m); abs (mt_out m); mt_path m], [mt_verb m; mt_sq m]))
          (sv_methods s).
